@@ -159,7 +159,7 @@ def readingOrderTrees (ro : RO) (roa : PyVal) : List Xml :=
 
 def mdFieldTrees (md : Meta) (field : String) : List Xml :=
   match alookup (.s field) md with
-  | some v => [⟨field, [], some (strT v), []⟩]
+  | some v => [⟨field, [], some (pyStrT v), []⟩]
   | none => []
 
 def metadataTree (md : Meta) : Xml :=
@@ -167,7 +167,7 @@ def metadataTree (md : Meta) : Xml :=
 
 def mdFieldOk (md : Meta) (field : String) : Bool :=
   match alookup (.s field) md with
-  | some v => strOk v
+  | some v => okB (pyStr v)
   | none => true
 
 /-- the image file name written on the Page element -/
@@ -268,7 +268,7 @@ def contentRoAttrs (ro : RO) (roa : PyVal) : List (String × String) :=
   else optAttrs "id" (lookupS "id" (roaPairs roa)) ++ optAttrs "caption" (lookupS "caption" (roaPairs roa))
 
 def srcMetaOf (md : Meta) : Scan.SrcMeta :=
-  let f := fun (k : String) => (alookup (.s k) md).map strT
+  let f := fun (k : String) => (alookup (.s k) md).map pyStrT
   { creator := f "Creator", created := f "Created", lastChange := f "LastChange", comments := none }
 
 def sizedB (s : Scan) : Bool := (widthOf s.h).getD 0 != 0 && (heightOf s.h).getD 0 != 0
